@@ -246,4 +246,12 @@ def run(P, R, tier):
     query_awaited(P, R)
     holds.hard_hold_sites(P, R, 'C02.GRD.3')
     refusal_kills(P, R)
+    # a reply may only settle a query that is still unanswered: matching it against anything but the awaited
+    # set lets a duplicate answer release a hold that a pending query still needs
+    from ..report import Remap
+    from . import c04
+    R4 = Remap(R, {'C04.GRD.2': 'C02.GRD.5', 'C04.GRD.3': 'C02.GRD.5'})
+    cl = c04.lookup_discipline(P, R4)
+    c04.effects_guarded(P, R4, cl)
+    c04.lookup_skips(P, R4, cl)
     return EXPLANATION, ASSUMPTIONS
